@@ -127,11 +127,13 @@ def build_driver(flavour, name, sources, extra_flags='', extra_link=''):
                     if r.returncode != 0:
                         raise RuntimeError('driver compile failed:\n%s\n%s' % (cmd, r.stderr[-6000:]))
         if jobs or _needs(out, objs + [lib]):
+            tmp = '%s.tmp%d' % (out, os.getpid())
             cmd = '%s %s %s -o %s %s %s -Wl,-rpath,%s -lpthread -ldl %s' % (
-                fl['cxx'], fl['flags'], fl['link'], out, ' '.join(objs), lib, libdir(flavour), extra_link)
+                fl['cxx'], fl['flags'], fl['link'], tmp, ' '.join(objs), lib, libdir(flavour), extra_link)
             r = subprocess.run(cmd, shell=True, capture_output=True, text=True)
             if r.returncode != 0:
                 raise RuntimeError('driver link failed:\n%s\n%s' % (cmd, r.stderr[-6000:]))
+            os.replace(tmp, out)     # atomic: processes still running the old binary keep their inode
     return out
 
 
